@@ -1,4 +1,6 @@
 SPECIFICATION Spec
-CONSTANT NChunks = 16
+CONSTANTS
+  NChunks = 16
+  SigLimit = 0
 INVARIANT DesignOk
 CHECK_DEADLOCK FALSE
